@@ -20,6 +20,7 @@ TInit == /\ t \in 1 .. NT /\ l = 1 /\ devs = {}
          /\ cfg = IF Traces[t][1].ev = "boot" THEN Traces[t][1].cfg ELSE DefaultCfg
          /\ day = 1
          /\ dated = [f \in Files |-> {}]
+         /\ hday = [f \in Files |-> 1]
          /\ virgin = [f \in Files |-> 1]
 
 LevelsMatch(e) == ~e.haslevel \/ \A m \in Mods, c \in Conns : level'[<<m, c>>] = e.level[m][c]
